@@ -520,7 +520,20 @@ where
                                     },
                                 ))));
                             }
-                            Directive::Slots(expr) => slots = expr,
+                            Directive::Slots(expr) => {
+                                if !is_component {
+                                    // (its value would be dropped unevaluated, or become the
+                                    // children of an element)
+                                    HANDLER.with(|handler| {
+                                        handler.span_err(
+                                            jsx_attr.span,
+                                            "`v-slots` can only be used on components: \
+                                             the children of this element are not slots.",
+                                        )
+                                    });
+                                }
+                                slots = expr;
+                            }
                         }
                     }
                     JSXAttrOrSpread::JSXAttr(jsx_attr) => {
